@@ -6,7 +6,7 @@ From Coq Require Import String List NArith Bool.
 From J5V.lib Require Import Outcome Strcase.
 From J5V.model Require Import J5sAst Desc J5sWalk J5sLink J5sConvert J5sContract J5sValid J5sCorr.
 From J5V.gen Require ImportsGen.
-From J5V.proofs Require Import J5sProofs J5sContractProofs J5sLinkProofs J5sResolveProofs J5sServiceProofs J5sWitnessProofs.
+From J5V.proofs Require Import J5sProofs J5sContractProofs J5sLinkProofs J5sResolveProofs J5sServiceProofs J5sTotalProofs J5sWitnessProofs.
 Import ListNotations.
 Local Open Scope N_scope.
 
@@ -145,6 +145,16 @@ Theorem C02_inline_name_resolves_partial : forall syms fpkg scope parts root res
   link_name syms fpkg scope (rel_name parts) = Ok (abs_name fpkg parts).
 Proof. exact link_name_inline. Qed.
 Print Assumptions C02_inline_name_resolves_partial.
+
+(* ---- acceptance up to the link step: in a valid bundle every source file of every package
+   converts (objects, oneofs, enums, services, topics; loadLocalPackage + ConvertJ5File never
+   fail).  Together with C02_compile_sound_partial this leaves exactly one way for a valid
+   package to miss its contract: the link step (the refutations below). *)
+Theorem C02_valid_packages_convert : forall snake camel screaming bd pkg,
+  valid_bundle snake camel bd = true -> (exists f, In f bd /\ bfile_pkg f = pkg) ->
+  exists D, convert_package snake camel screaming bd pkg = Ok D.
+Proof. exact convert_package_total. Qed.
+Print Assumptions C02_valid_packages_convert.
 
 (* ---- the property at full strength, and its refutation by the faithful model *)
 Definition C02_full_statement : Prop :=
